@@ -201,8 +201,8 @@ impl Check for C24 {
     }
     fn floor(&self, tier: Tier) -> u64 {
         match tier {
-            Tier::Quick => 4000,
-            Tier::Thorough => 150_000,
+            Tier::Quick => 3000,
+            Tier::Thorough => 40_000,
         }
     }
     fn required_counters(&self) -> Vec<&'static str> {
